@@ -88,7 +88,7 @@ if __name__ == "__main__":
         # traverse over several parents, membership through a subject-set indirection on one of them:
         # the decision must not depend on goroutine scheduling (independent mutant C01-m3: shared loop variable)
         nss3 = [ns("Folder", rel("viewers", [("group", "member")]), perm("view", "or", c("viewers"))),
-                ns("Doc", rel("parents", [("Folder", "")]), perm("view", "or", ttu("parents", "view"))), group]
+                ns("Doc", rel("parents", [("Folder", "")]), perm("view", "or", ttu("parents", "viewers"))), group]
         for k in range(1, 4):
             T3 = [f"Doc:1#parents@Folder:{j}#" for j in range(1, 6)] + [f"Folder:{k}#viewers@group:10#member"] + base
             case(f"ttu-parents-{k}", nss3, T3, "Doc:1#view@1", g=10,
